@@ -15,6 +15,7 @@ inductive Name
   | mapValue                  -- `__map_value`
   | setElem                   -- `__set_elem`
   | field (f : FieldName)     -- a destructured struct field, bound under its own name
+  | rootValue                 -- `__assert_struct_value`: a reference to the asserted expression
   deriving DecidableEq, Repr, Inhabited
 
 def Name.render : Name → String
@@ -23,6 +24,7 @@ def Name.render : Name → String
   | .mapValue => "__map_value"
   | .setElem => "__set_elem"
   | .field f => f.toString
+  | .rootValue => "__assert_struct_value"
 
 /-- Prefix operators spliced in front of a value expression. -/
 inductive Pre
@@ -157,6 +159,11 @@ def isStrLit (e : UExpr) : Bool :=
 
 def dbgPush (sp : Sp) (node : Nat) (v : VExpr) : Push := ⟨sp, node, .dbg v, .none⟩
 
+/-- `(#value_expr).#field_name`: field access on the parenthesised value expression. -/
+def wildBase (v : VExpr) : FieldName → Core
+  | .ident i => .named (.paren v.pre v.core) Sp.callSite i
+  | .index n => .unnamed (.paren v.pre v.core) Sp.callSite n
+
 mutual
 /-- `expand_pattern_assertion(value_expr, pattern)`. -/
 def expandPat (v : VExpr) : Pat → Code
@@ -211,9 +218,7 @@ def expandWildFields (v : VExpr) : Items → Codes
       | some ops =>
         match ops.rootFieldName? with
         | some f =>
-          let base : Core := match f with
-            | .ident i => .named (.paren v.pre v.core) Sp.callSite i
-            | .index n => .unnamed (.paren v.pre v.core) Sp.callSite n
+          let base : Core := wildBase v f
           match ops.tailOps? with
           | some (some tl) => expandPat (applyOps (VExpr.ofCore base) tl) p
           | _ => expandPat ⟨[Pre.amp Sp.callSite], base⟩ p
@@ -269,14 +274,20 @@ def sliceParts : Items → Nat → List Binder
       :: sliceParts tl (i + 1)
 end
 
-/-- The whole expansion: node definitions (in emission order), root node, assertion. -/
+/-- The whole expansion: node definitions (in emission order), root node, assertion.
+The asserted expression is bound once, by reference, to `__assert_struct_value`
+(`let __assert_struct_value = &(expr);`), and the root pattern is expanded on that
+binding; the `let` is emitted only when the assertion is not empty. -/
 structure Expansion where
   nodes : List (Nat × NodeDef)
   root : Nat
   body : Code
 
+/-- The value expression handed to the root pattern. -/
+def rootVExpr : VExpr := VExpr.ofCore (.var .rootValue)
+
 def expand (p : Pat) : Expansion :=
-  { nodes := genNodes p none, root := p.id, body := expandPat (VExpr.ofCore .root) p }
+  { nodes := genNodes p none, root := p.id, body := expandPat rootVExpr p }
 
 /-! ### Panic sites reachable from expansion -/
 
